@@ -18,6 +18,10 @@ Partial / as-is:
 * `C35_fails_asis_seek_block_gap`  negation on the witness of the open finding.
 * `C35_corrupt_block_never_served` (headline, also bears on C14): through `loadBlock` and the block
                      cache, a block whose checksum does not match is never returned, first read or retry.
+* `C35_every_uncached_load_verified` (headline, bears on C14): every load that misses the cache is
+                     verified against the file content at that moment, even if the file changes between loads.
+* `C35_trailer_never_panics` (headline, bears on C14): with the repaired guard the trailer decoding
+                     never slices out of range; `C35_fails_asis_chklen_guard` is the as-is negation.
 NOT PROVED (named, covered by the correspondence run only): `C35_seek_rev` (descending seek =
 entries `≤ target`, last first) and "reopen = decode ∘ encode of the table image" (the byte
 layout of blocks/index/checksums is not modelled).
@@ -68,10 +72,7 @@ theorem C35_point (c : SstCfg) (hc : c.GoodButSeek) (hash : Bytes → Nat) (bloc
     rcases hspec with h | ⟨_, _, h3⟩
     · rw [h, ht]
     · exact absurd rfl (h3 e he)
-  have hcfg : c.bloomSameProjection = true ∧ c.searchVsOp = .lt := by
-    obtain ⟨so, nb, ts, bf, br, sv, bp, vc⟩ := c
-    simp only [SstCfg.GoodButSeek, SstCfg.good, SstCfg.mk.injEq] at hc
-    exact ⟨hc.2.2.2.2.2.2.1, hc.2.2.2.2.2.1⟩
+  have hcfg : c.bloomSameProjection = true ∧ c.searchVsOp = .lt := ⟨hc.2.2.2.2.2, hc.2.2.2.2.1⟩
   simp only [buildTable] at hbloom
   unfold search
   simp only [buildTable, hcfg.1, if_true, hseek, hcfg.2]
@@ -87,8 +88,8 @@ theorem C35_seek_fwd (c : SstCfg) (hc : c.Good) (hash : Bytes → Nat) (blockSiz
     (bpk k : Nat) (es : List SEntry) (hs : SortedE es) (target : Bytes) :
     seekFwd c target (buildTable c hash blockSize bloomOn bpk k es).blocks =
       es.dropWhile (fun e => klt e.1 target) := by
-  have hg : c.GoodButSeek := by unfold SstCfg.Good at hc; subst hc; decide
-  have hnb : c.seekFallsThrough = true := by unfold SstCfg.Good at hc; subst hc; rfl
+  have hg : c.GoodButSeek := hc.1
+  have hnb : c.seekFallsThrough = true := hc.2
   have hfl := buildBlocks_flatten c blockSize es
   have hspec := seekFwd_spec c hg target (buildBlocks c blockSize es) (buildBlocks_nonempty c blockSize es)
     (by rw [hfl]; exact hs)
@@ -115,7 +116,7 @@ theorem C35_seek_fwd_partial (c : SstCfg) (hc : c.GoodButSeek) (hash : Bytes →
   · exact Or.inr ⟨h2, h3⟩
 
 /-- the as-is configuration of the open finding -/
-def AsIsSeek (c : SstCfg) : Prop := c = { SstCfg.good with seekFallsThrough := false }
+def AsIsSeek (c : SstCfg) : Prop := c.GoodButSeek ∧ c.seekFallsThrough = false
 instance decAsIsSeek (c : SstCfg) : Decidable (AsIsSeek c) := by unfold AsIsSeek; exact inferInstance
 
 /-- witness corpus/C35/finding-seek-block-gap.ops: entries `a`@5, `a`@3 with a block size that puts
@@ -129,9 +130,11 @@ theorem C35_fails_asis_seek_block_gap (c : SstCfg) (hc : AsIsSeek c) :
     seekFwd c (mkKey IdxCfg.good [97] 4) t.blocks = [] ∧
     es.dropWhile (fun e => klt e.1 (mkKey IdxCfg.good [97] 4)) = [(mkKey IdxCfg.good [97] 3, [2])] ∧
     search c (fun _ => 0) t (mkKey IdxCfg.good [97] 4) = none := by
-  unfold AsIsSeek at hc
-  subst hc
-  decide
+  obtain ⟨so, nb, ts, bf, br, sv, bp, vc, cg, ve⟩ := c
+  obtain ⟨⟨h1, h2, h3, h4, h5, h6⟩, h7⟩ := hc
+  simp only at h1 h2 h3 h4 h5 h6 h7
+  subst h1 h2 h3 h4 h5 h6 h7
+  cases vc <;> cases cg <;> cases ve <;> decide
 
 /-! ### a block that fails its checksum is never served (shared with C14: SST data blocks) -/
 
@@ -188,5 +191,58 @@ fails, the retry is served the corrupted block from the cache. -/
 theorem C35_fails_cache_before_verify (c : SstCfg) (hc : c.verifyBeforeCache = false) :
     loadSeq c (fun _ => ([([1], [66])], false)) [] [0, 0] = [.err, .ok [([1], [66])]] := by
   simp [loadSeq, loadBlock, hc, List.lookup]
+
+/-! ### every load that is not served from the cache is verified -/
+
+/-- With unconditional verification, in any sequence of loads that miss the cache — the file may
+change between any two of them — every load either fails or returns the decoding of what is in
+the file *at that moment* with a matching checksum.  (A cache hit returns a block that went
+through this step when it was inserted: `C35_corrupt_block_never_served`.) -/
+theorem C35_every_uncached_load_verified (c : SstCfg) (hc : c.verifyEveryLoad = true) (verified : List Nat)
+    (steps : List ((Nat → Block × Bool) × Nat)) :
+    ∀ p ∈ steps.zip (loadSeqLive c verified steps),
+      p.2 = .err ∨ (p.2 = .ok (p.1.1 p.1.2).1 ∧ (p.1.1 p.1.2).2 = true) := by
+  induction steps generalizing verified with
+  | nil => simp [loadSeqLive]
+  | cons st rest ih =>
+    obtain ⟨disk, i⟩ := st
+    intro p hp
+    simp only [loadSeqLive, List.zip_cons_cons, List.mem_cons] at hp
+    rcases hp with hp | hp
+    · subst hp
+      simp only [loadUncached, verifyStep, hc, if_true]
+      cases h : (disk i).2 <;> simp
+    · exact ih _ p hp
+
+/-- verify-once-per-handle (seed C14-m2r2's shape): a block read while intact and corrupted in the
+file afterwards is returned on the next uncached load. -/
+theorem C35_fails_verify_once (c : SstCfg) (hc : c.verifyEveryLoad = false) :
+    loadSeqLive c [] [((fun _ => ([([1], [65])], true)), 0), ((fun _ => ([([1], [66])], false)), 0)] =
+      [.ok [([1], [65])], .ok [([1], [66])]] := by
+  simp [loadSeqLive, loadUncached, verifyStep, hc]
+
+/-! ### the block trailer never crashes the reader -/
+
+/-- With the checksum-length field bounded by the bytes that precede it, the first trailer step
+never slices out of range, whatever the block length and whatever the four length bytes hold. -/
+theorem C35_trailer_never_panics (c : SstCfg) (hc : c.chkLenGuardReadPos = true) (len chkLen : Nat) :
+    chkLenStep c len chkLen ≠ .panic := by
+  unfold chkLenStep
+  simp only [hc, if_true]
+  by_cases h : chkLen > len - 4
+  · simp [h]
+  · simp [h]
+
+/-- as-is guard (`chkLen > len(b.data)`): witness corpus/C35/finding-chklen-guard.ops — a block of
+40 bytes (one entry: 9-byte key, 5-byte value); flipping bit 5 of the last byte turns the length
+field 8 into 40, which passes the guard and makes `readPos` negative: `table.Search` panics. -/
+theorem C35_fails_asis_chklen_guard (c : SstCfg) (hc : c.chkLenGuardReadPos = false) :
+    blockBytes [(mkKey IdxCfg.good [97] 1, [1, 2, 3, 4, 5])] = 40 ∧
+    flippedChkLen 3 5 = 40 ∧
+    chkLenStep c 40 (flippedChkLen 3 5) = .panic := by
+  refine ⟨by decide, by decide, ?_⟩
+  unfold chkLenStep
+  simp only [hc]
+  decide
 
 end NoKV.Props.C35
